@@ -41,9 +41,13 @@ fn summarize_items(ts: proc_macro2::TokenStream) -> Value {
                 }
             }
             let mut fns = vec![];
+            let mut assoc = serde_json::Map::new();
             for ii in im.items.iter() {
                 if let syn::ImplItem::Fn(f) = ii {
                     fns.push(f.sig.ident.to_string());
+                }
+                if let syn::ImplItem::Type(t) = ii {
+                    assoc.insert(t.ident.to_string(), json!(t.ty.to_token_stream().to_string()));
                 }
             }
             items.push(json!({
@@ -52,6 +56,7 @@ fn summarize_items(ts: proc_macro2::TokenStream) -> Value {
                 "self_ty": im.self_ty.to_token_stream().to_string(),
                 "where": preds,
                 "fns": fns,
+                "assoc": assoc,
                 "tokens": im.to_token_stream().to_string(),
             }));
         } else {
@@ -187,12 +192,13 @@ fn expand_grouped(src: &str, group_mode: u64) -> Value {
         Ok(a) => a,
         Err(e) => return json!({"outcome": "parse_error", "message": e.to_string()}),
     };
-    let record = ser::derive_input(&ast);
     if group_mode == 3 {
         for_each_field_type(&mut ast, &mut |ty| syn::visit_mut::VisitMut::visit_type_mut(&mut ParenToGroup, ty));
     } else if group_mode > 0 {
         for_each_field_type(&mut ast, &mut |ty| group_type(ty, group_mode));
     }
+    // the record is taken from what the macro is given (in the grouped modes: with the invisible groups in the type trees)
+    let record = ser::derive_input(&ast);
     let res = panic::catch_unwind(panic::AssertUnwindSafe(|| educe_inproc::derive_input_handler_verif(ast)));
     match res {
         Ok(Ok(ts)) => json!({"outcome": "ok", "tokens": canonical(&ts), "nested": nested_impls(ts.clone()), "items": summarize_items(ts), "input": record}),
@@ -237,7 +243,7 @@ fn main() {
                     let mut gs = vec![];
                     for mode in [1u64, 2u64, 3u64] {
                         let w = expand_grouped(src, mode);
-                        gs.push(json!({"mode": mode, "outcome": w["outcome"], "message": w["message"],
+                        gs.push(json!({"mode": mode, "outcome": w["outcome"], "message": w["message"], "input": w["input"],
                                        "same_tokens": w["tokens"] == v["tokens"] || mode == 3,
                                        "macro_src": if w["outcome"] != v["outcome"] || w["tokens"] != v["tokens"] { json!(macro_source(src, mode)) } else { Value::Null }}));
                     }
